@@ -9,7 +9,8 @@ import (
 // vxAEAD: the contract of AES-GCM given to the solver (DESIGN.md §5): Seal appends an
 // opaque block of len(plaintext)+16 fresh, unconstrained bytes; Open succeeds exactly on
 // a (nonce, ciphertext) pair produced by Seal under the same key and returns that
-// plaintext.  Cryptographic strength is trusted, not checked.
+// plaintext; under one key and nonce different plaintexts have different outputs.
+// Cryptographic strength is trusted, not checked.
 const vxTestKeyB64 = "6S-Ks2YYOW0xMvTzKSv6QD30gZeOi1c6Ydr-As5csWk="
 
 type vxBlockT struct{ key []byte }
@@ -32,6 +33,13 @@ func (g vxGCMT) Overhead() int  { return 16 }
 func (g vxGCMT) Seal(dst, nonce, plaintext, ad []byte) []byte {
 	ct := []byte(vxStr("ct"+string(rune('0'+vxSealSeq)), len(plaintext)+16))
 	vxSealSeq++
+	// for one key and nonce the ciphertext determines the plaintext (GCM is a keystream
+	// XOR plus a tag): two different plaintexts never give the same output
+	for _, s := range vxSeals {
+		if len(s.pt) == len(plaintext) && vxBytesEq(s.key, g.key) && vxBytesEq(s.nonce, nonce) && !vxBytesEq(s.pt, plaintext) {
+			vxAssume(!vxBytesEq(s.ct, ct))
+		}
+	}
 	vxSeals = append(vxSeals, &vxSealed{key: g.key, nonce: append([]byte(nil), nonce...), ct: ct, pt: append([]byte(nil), plaintext...)})
 	return append(dst, ct...)
 }
